@@ -412,13 +412,16 @@ Inductive event :=
 | EParse (off : Z)                         (* a head parse starts at this connection offset *)
 | E100                                     (* "HTTP/1.1 100 Continue" written *)
 | EDispatch (id : Z) (nread : Z) (hrc : rc)(* handler called; what its reads over the stream returned *)
-| EResp (status : Z) (closehdr : bool)     (* final response of the iteration *)
+| EResp (status : Z) (closehdr : bool)     (* final response of the iteration, handed to the buffered writer (flushed at once unless more
+                                              pipelined input is already buffered) *)
 | EHijack
 | EDesync (id : Z) (rel abs : Z)           (* keep-alive after request id at offset rel of its body (abs on the connection), which is not where the next request starts *)
+| ESilent                                  (* the loop ends on io.EOF while reading a body: no response, and bw is NOT flushed:
+                                              responses of earlier pipelined requests that were still buffered are never sent *)
 | EClose.                                  (* the server stops reading the connection *)
 
 (* what an observer of the connection sees: everything but the bookkeeping events *)
-Definition visible (e : event) : bool := match e with EParse _ | EClose => false | _ => true end.
+Definition visible (e : event) : bool := match e with EParse _ | EClose | ESilent => false | _ => true end.
 
 Definition zl_of (f : framing) : Z := match f with FChunked _ zl _ => zl | _ => 0 end.
 Definition tl_of (f : framing) : Z := match f with FChunked _ _ tl => tl | _ => 0 end.
@@ -488,7 +491,7 @@ Definition before_handler (c : cfg) (r : req) : pre :=
   (* first body-reading attempt: skipped when MayContinue() *)
   let first := if r_expect r then BReady 0 None else read_body c r false in
   match first with
-  | BFailSilent => PStop []
+  | BFailSilent => PStop [ESilent]
   | BFail => PStop [EResp statusBadRequest true]
   | BReady pos0 st0 =>
     (* 'Expect: 100-continue' request handling *)
@@ -500,7 +503,7 @@ Definition before_handler (c : cfg) (r : req) : pre :=
       let second := if r_expect r then read_body c r true else BReady pos0 st0 in
       let pre := if r_expect r then [E100] else [] in
       match second with
-      | BFailSilent => PStop pre
+      | BFailSilent => PStop (pre ++ [ESilent])
       | BFail => PStop (pre ++ [EResp statusBadRequest true])
       | BReady pos1 st1 => PRun pre pos1 st1
       end
